@@ -7,6 +7,9 @@ use vrl::compiler::{compile, runtime::Runtime, runtime::Terminate, TargetValue, 
 use vrl::path::{OwnedSegment, OwnedValuePath};
 use vrl::value::{Secrets, Value};
 
+/// The thorough tier (VERIF_TIER=thorough, set by /verif/check) enlarges some witness domains.
+fn thorough() -> bool { std::env::var("VERIF_TIER").map(|t| t == "thorough").unwrap_or(false) }
+
 fn fail(unit: &str, case: &str, expected: &str, actual: &str) {
     println!("{}", serde_json::json!({"unit": unit, "case": case, "expected": expected, "actual": actual}));
 }
@@ -1177,7 +1180,7 @@ fn casing_idempotence(f: &str) -> usize {
     let alphabet = ['a', 'B', ' ', ',', 'é', 'ß', '_', '1'];
     let mut strings: Vec<String> = vec![String::new()];
     let mut frontier = vec![String::new()];
-    for _ in 0..4 {
+    for _ in 0..(if thorough() { 5 } else { 4 }) {
         let mut next = vec![];
         for s in &frontier { for c in alphabet { let mut t = s.clone(); t.push(c); next.push(t); } }
         strings.extend(next.iter().cloned());
@@ -1204,7 +1207,7 @@ fn string_laws() -> usize {
     let alphabet = ['a', 'B', ' ', ',', 'é', 'ß'];
     let mut strings: Vec<String> = vec![String::new()];
     let mut frontier = vec![String::new()];
-    for _ in 0..4 {
+    for _ in 0..(if thorough() { 5 } else { 4 }) {
         let mut next = vec![];
         for s in &frontier { for c in alphabet { let mut t = s.clone(); t.push(c); next.push(t); } }
         strings.extend(next.iter().cloned());
@@ -1353,7 +1356,8 @@ fn compile_small_sources() -> usize {
     let alphabet = ['"', '\\', '\n', '\u{a0}', 'a', '.', '=', ' ', '{', '\'', '}', '(', '0'];
     let mut texts: Vec<String> = vec![String::new()];
     let mut frontier = vec![String::new()];
-    for _ in 0..5 {
+    let max_len = if thorough() { 6 } else { 5 };
+    for _ in 0..max_len {
         let mut next = vec![];
         for s in &frontier { for c in alphabet { let mut t = s.clone(); t.push(c); next.push(t); } }
         texts.extend(next.iter().cloned());
@@ -1382,7 +1386,7 @@ fn compile_small_sources() -> usize {
     for t in &texts {
         n += 2;
         check(t, &mut bad);
-        check(&format!("\"{t}\""), &mut bad);
+        if t.chars().count() <= 5 { check(&format!("\"{t}\""), &mut bad); }
         if t.chars().count() <= 4 {
             n += 4;
             check(&format!("s'{t}'"), &mut bad);
